@@ -10,6 +10,7 @@ import hashlib
 import os
 import pickle
 import sys
+import threading
 import time
 import warnings
 from contextlib import nullcontext, suppress
@@ -450,7 +451,9 @@ class DiskCache(_CacheBase):
         """Insert a key value pair into the cache."""
         file_path = self._get_file_path(key)
         # Write to a temporary file first: a concurrent reader must never see a partially written entry
-        tmp_path = file_path.with_name(f"{file_path.name}.{os.getpid()}.tmp")
+        tmp_path = file_path.with_name(
+            f"{file_path.name}.{os.getpid()}.{threading.get_ident()}.tmp",  # unique per concurrent writer
+        )
         with tmp_path.open("wb") as f:
             if self.use_cloudpickle:
                 cloudpickle.dump(value, f)
